@@ -124,6 +124,11 @@ impl RelaxationKind {
     }
 }
 
+/// The values that a `lui`/`auipc` (20-bit immediate, sign-extended on RV64) together with the
+/// signed 12-bit immediate of the instruction that it's paired with can represent.
+const HI20_RANGE: AllowedRange =
+    AllowedRange::new(-(2i64.pow(31)) - 2i64.pow(11), 2i64.pow(31) - 2i64.pow(11));
+
 #[must_use]
 pub const fn relocation_type_from_raw(r_type: u32) -> Option<RelocationKindInfo> {
     // The relocation listing following the order defined in the standard:
@@ -170,40 +175,35 @@ pub const fn relocation_type_from_raw(r_type: u32) -> Option<RelocationKindInfo>
             RelocationKind::PltRelative,
             RelocationSize::bit_mask_riscv(0, 64, RiscVInstruction::UiType),
             None,
-            // Can represent signed or unsigned value.
-            AllowedRange::new(-(2i64.pow(31)), 2i64.pow(32)),
+            HI20_RANGE,
             1,
         ),
         object::elf::R_RISCV_GOT_HI20 => (
             RelocationKind::GotRelative,
             RelocationSize::bit_mask_riscv(0, 32, RiscVInstruction::UType),
             None,
-            // Can represent signed or unsigned value.
-            AllowedRange::new(-(2i64.pow(31)), 2i64.pow(32)),
+            HI20_RANGE,
             1,
         ),
         object::elf::R_RISCV_TLS_GOT_HI20 => (
             RelocationKind::GotTpOff,
             RelocationSize::bit_mask_riscv(0, 32, RiscVInstruction::UType),
             None,
-            // Can represent signed or unsigned value.
-            AllowedRange::new(-(2i64.pow(31)), 2i64.pow(32)),
+            HI20_RANGE,
             1,
         ),
         object::elf::R_RISCV_TLS_GD_HI20 => (
             RelocationKind::TlsGd,
             RelocationSize::bit_mask_riscv(0, 32, RiscVInstruction::UType),
             None,
-            // Can represent signed or unsigned value.
-            AllowedRange::new(-(2i64.pow(31)), 2i64.pow(32)),
+            HI20_RANGE,
             1,
         ),
         object::elf::R_RISCV_PCREL_HI20 => (
             RelocationKind::Relative,
             RelocationSize::bit_mask_riscv(0, 32, RiscVInstruction::UType),
             None,
-            // Can represent signed or unsigned value.
-            AllowedRange::new(-(2i64.pow(31)), 2i64.pow(32)),
+            HI20_RANGE,
             1,
         ),
         object::elf::R_RISCV_PCREL_LO12_I => (
@@ -226,8 +226,7 @@ pub const fn relocation_type_from_raw(r_type: u32) -> Option<RelocationKindInfo>
             RelocationKind::Absolute,
             RelocationSize::bit_mask_riscv(0, 32, RiscVInstruction::UType),
             None,
-            // Can represent signed or unsigned value.
-            AllowedRange::new(-(2i64.pow(31)), 2i64.pow(32)),
+            HI20_RANGE,
             1,
         ),
         object::elf::R_RISCV_LO12_I => (
@@ -250,8 +249,7 @@ pub const fn relocation_type_from_raw(r_type: u32) -> Option<RelocationKindInfo>
             RelocationKind::TpOff,
             RelocationSize::bit_mask_riscv(0, 32, RiscVInstruction::UType),
             None,
-            // Can represent signed or unsigned value.
-            AllowedRange::new(-(2i64.pow(31)), 2i64.pow(32)),
+            HI20_RANGE,
             1,
         ),
         object::elf::R_RISCV_TPREL_LO12_I => (
